@@ -147,6 +147,11 @@ Write(n) ==
                    ELSE /\ phase' = "Data" /\ tmp' = 0 /\ pl' = s2.pl /\ sym' = s2.sym
                         /\ lastRet' = n - s2.rd /\ offered' = offered + (n - s2.rd) /\ UNCHANGED verdict
 
+\* Stream::flush (Stream is an io::Write): passes the flush on to the sink in the data phase, does nothing otherwise;
+\* in particular it neither decodes nor hands the pending window over - nothing a later finish() has to deliver
+\* may depend on it.  (Never fails by itself; the sink's own flush errors are C12's subject.)
+Flush == verdict = "none" /\ UNCHANGED vars
+
 Finish ==
   /\ sd' = sd /\ verdict = "none"
   /\ \/ /\ phase = "None" /\ verdict' = "err" /\ UNCHANGED <<phase, tmp, pl, sym, offered, lastRet, lastN>>
@@ -159,9 +164,6 @@ Finish ==
                 /\ sym' = s.sym /\ pl' = s.pl
                 /\ verdict' = IF s.res = "err" THEN "err" ELSE "ok"
         /\ UNCHANGED <<phase, tmp, offered, lastRet, lastN>>
-
-\* flush() only flushes the sink
-Flush == verdict = "none" /\ UNCHANGED vars
 
 (***************************************************************************)
 (* The one-shot decoder on the same bytes (lzma_decompress_with_options).   *)
